@@ -164,10 +164,10 @@ def findMatchingNodes (O : AGraph) (A : AGraph) : AR :=
   match listAllNodeIds A with
   | (.error e, _) => (.error e, A)
   | (.ok (.vals mine), _) =>
-    if O.nodes.any (fun a => !AMap.has nodeId a) then (.error .key, A)
-    else
-      let theirs := O.nodes.map (AMap.get nodeId)
-      (.ok (.vals ((mine.filter (fun x => theirs.contains x)).eraseDups)), A)
+    let theirs := O.nodes.map (AMap.get nodeId)
+    match fmnErr mine theirs with
+    | some e => (.error e, A)
+    | none => (.ok (.vals ((mine.filter (fun x => theirs.contains x)).eraseDups)), A)
   | (.ok _, _) => (.error .runtime, A)
 
 /-- is the operation part of the reference interface (single graph, plus `find_matching_nodes`) -/
